@@ -55,3 +55,47 @@ Proof.
   { destruct (Qlt_le_dec err 1) as [Hl | Hl]; [|exact Hl]. apply qlt_iff in Hl. rewrite Hl in E. discriminate E. }
   apply Qle_shift_div_r; lra.
 Qed.
+
+(* C07: the step-size theorem at the rationals of the tie *)
+Theorem ros_attempt_sizes_within_the_interval_Q :
+  forall isnan isinf is_zero absorbed (pow_inv : Q -> Q -> Q) ten delta_min
+         (V M F : Type) vaxpy vzero mzero add_diag forcing negjac in_place factor_sep solve_sep factor_ip solve_ip nerr
+         (p : params NumQ),
+    0 <= p_round_off p -> 0 <= p_factor_min p <= 1 -> 0 <= p_factor_max p -> 0 <= p_rej_dec p <= 1 ->
+    (forall err, qlt err 1 = false -> Qred (p_safety p / pow_inv err (p_elo p)) <= 1) ->
+    forall fuel (time_step : Q) (s : rstate V M F), 0 <= time_step ->
+      sizes_ok NumQ V M (fun x => x) time_step 0
+        (r_trace (ros_solve NumQ qlt qle Qabs isnan isinf is_zero absorbed pow_inv ten delta_min V M F vaxpy vzero mzero
+                            add_diag forcing negjac in_place factor_sep solve_sep factor_ip solve_ip nerr p fuel time_step s)).
+Proof.
+  intros isnan isinf is_zero absorbed pow_inv ten delta_min V M F vaxpy vzero mzero add_diag forcing negjac in_place
+         factor_sep solve_sep factor_ip solve_ip nerr p Hro Hfmin Hfmax Hrd Hraw fuel ts s Hts.
+  apply (ros_attempt_sizes_within_the_interval NumQ qlt qle Qabs isnan isinf is_zero absorbed pow_inv ten delta_min V M F
+           vaxpy vzero mzero add_diag forcing negjac in_place factor_sep solve_sep factor_ip solve_ip nerr p (fun x => x)).
+  - intros a b. exact (Qred_correct _).
+  - intros a b. exact (Qred_correct _).
+  - intros a b. exact (Qred_correct _).
+  - exact qlt_iff.
+  - exact qle_iff.
+  - intros a. reflexivity.
+  - exact Hro.
+  - exact Hfmin.
+  - exact Hfmax.
+  - exact Hrd.
+  - exact Hraw.
+  - reflexivity.
+  - exact Hts.
+Qed.
+
+(* sizes_ok is not trivially true: it accepts a step of 1/2 retried with 1/4 inside [0, 1] and refuses a retry that
+   grows, a step start beyond the remaining interval and a negative size *)
+Example sizes_ok_discriminates :
+  let A H := @EvAttempt NumQ unit unit H 2 false tt tt tt in
+  let S t H := @EvStep NumQ unit unit t H in
+  sizes_ok NumQ unit unit (fun x => x) 1 0 [S (1#2) (1#2); @EvForcing NumQ unit unit tt; A (1#2); A (1#4)] /\
+  ~ sizes_ok NumQ unit unit (fun x => x) 1 0 [S (1#2) (1#2); A (1#2); A 1] /\
+  ~ sizes_ok NumQ unit unit (fun x => x) 1 0 [S (1#2) (3#4)] /\
+  ~ sizes_ok NumQ unit unit (fun x => x) 1 0 [S 0 (1#2); A (-1#4)].
+Proof.
+  cbn [sizes_ok]. repeat split; try lra; try (intro X; lra).
+Qed.
